@@ -199,6 +199,8 @@ where
         let dist_ptr = dist.as_mut_ptr();
 
         for u in sources {
+            assert!(u < order, "u = {u} isn't in the digraph");
+
             unsafe { *dist_ptr.add(u) = 0 };
 
             heap.push((Reverse(0), u));
@@ -350,6 +352,8 @@ where
         let dist_ptr = self.dist.as_mut_ptr();
 
         for (v, w) in self.digraph.out_neighbors_weighted(u) {
+            assert!(v < self.dist.len(), "v = {v} isn't in the digraph");
+
             let w_next = w_prev + w;
             let dist_v = unsafe { *dist_ptr.add(v) };
 
